@@ -30,7 +30,16 @@ class CHECK(Check):
             "None-valued over 0-2 attributes x {of_type, get_*_of_type, remove_*_of_type}; (b) random containers of "
             "1-10 members with queries interleaved with structural operations. non-trivial = the query selects at "
             "least one but not all members, or bulk removal hits a match value-equal to the first; distinct = case hash"
-            " Later additions: half of the cases use equal-but-distinct Python objects for member attributes and filter values (big ints, floats, run-time strings, int vs float); the NaN singleton as attribute and filter.")
+            " Later additions: half of the cases use equal-but-distinct Python objects for member attributes and filter values (big ints, floats, run-time strings, int vs float); the NaN singleton as attribute and filter."
+            " Live traversals (judged by the oracle only, outside the model's input language): an of_type(T) traversal is "
+            "opened, and structural operations (prepend/append/add_before/add_after of fresh elements, remove of any member, the "
+            "element last handed out and its neighbours included) run between its steps; (c) every single structural operation at "
+            "every point of a traversal of every container of 2-4 members x 3 class patterns x 3 requested types; (d) random "
+            "containers of 3-11 members with 2-12 pulls/operations per traversal, half of the operations aimed at the neighbourhood of the element "
+            "last handed out. Judged by what both a lazy and an eager (snapshot) evaluation guarantee: members of the type during "
+            "the whole traversal are handed out exactly once in container order, nothing is handed out that was not a member of "
+            "the type at some moment of the traversal, the traversal terminates, the container afterwards is the reference list. "
+            "Elements removed during a traversal are not re-inserted during the same traversal.")
 
     def gen(self, tier, rng):
         maxn = 3 if tier == "quick" else 4
@@ -88,6 +97,108 @@ class CHECK(Check):
                             l = [x for x in l if x not in m or x == l[0]]
                 ops.append(op)
             yield {"fam": rng.choice(families.FAMILIES), "elems": elems, "ops": ops, "kind": "random"}
+        yield from self.gen_live(tier, rng)
+
+    # ---- live traversals: structural operations between the steps of an open of_type(T) traversal
+    def gen_live(self, tier, rng):
+        # (c) one structural operation at every point of a traversal of a small container
+        pats = [[0, 0, 0, 0, 0], [0, 2, 1, 2, 0], [1, 0, 2, 0, 1]]          # classes of members 0..n-1 and of the fresh element n
+        fi = 0
+        for n in range(2, 5):
+            l = list(range(n))
+            build = [[1, i, 0] for i in range(1, n)]
+            for op in valid_ops(l, list(range(n + 1))):
+                for p in range(n + 1):
+                    for pat in pats:
+                        for t in (0, 2, 4):
+                            fi += 1
+                            elems = [[pat[i], [1 + i % 2, 7, None]] for i in range(n + 1)]
+                            yield {"fam": families.FAMILIES[fi % 3], "elems": elems, "kind": "live1",
+                                   "ops": build + [[8, t, ["next"] * p + [op]]]}
+        # (d) random traversals
+        nrand = 500 if tier == "quick" else 20000
+        for _ in range(nrand):
+            n = rng.randint(3, 11)
+            elems = [[rng.choice([0, 0, 1, 1, 2, 3]), [rng.choice([1, 2]), rng.choice([7, 7, None]), None]] for _ in range(n)]
+            l = [0]
+            ops = []
+            pool = list(range(n))
+            for _ in range(rng.randint(1, n - 1)):
+                cand = [o for o in valid_ops(l, pool) if o[0] != 4]
+                if len(l) >= n - 1 or not cand:
+                    break
+                op = rng.choice(cand)
+                l = ref_apply(l, op)
+                ops.append(op)
+            if len(l) > 2 and rng.random() < 0.3:
+                op = [4, rng.choice(l), 0]
+                l = ref_apply(l, op)
+                ops.append(op)
+            for _ in range(rng.choice([1, 1, 2])):
+                t = rng.choice([0, 0, 1, 2, 4, 4, rng.randrange(NT)])
+                script, l = self.gen_script(rng, elems, l, pool, t)
+                ops.append([8, t, script])
+                if rng.random() < 0.4:
+                    ops.append([rng.choice([5, 6]), rng.randrange(NT), []])
+            yield {"fam": rng.choice(families.FAMILIES), "elems": elems, "ops": ops, "kind": "live"}
+
+    @staticmethod
+    def gen_script(rng, elems, l, pool, t):
+        """a traversal script: "next" = one step of the traversal, [k, a, b] = a structural operation. The position the
+        traversal has reached is followed (as a chain walk would) ONLY to aim half of the operations at its neighbourhood; the
+        oracle does not use it."""
+        script = []
+        gone = set()          # removed during this traversal: not inserted again while it is open
+        cur = None            # element last handed out
+        after = {}            # successor of an element at the moment it was removed
+        started = False
+        for _ in range(rng.randint(2, 12)):
+            if rng.random() < 0.5:
+                script.append("next")
+                if not started:
+                    started, rest = True, list(l)
+                else:
+                    x = cur
+                    while x is not None and x not in l:
+                        x = after.get(x)
+                    rest = [] if x is None else (l[l.index(x) + 1:] if x == cur else l[l.index(x):])
+                nxt = [x for x in rest if isinst_row(elems[x][0])[t]]
+                cur = nxt[0] if nxt else None
+                continue
+            cand = [o for o in valid_ops(l, [x for x in pool if x not in gone])]
+            if not cand:
+                continue
+            if cur in l and rng.random() < 0.6:
+                i = l.index(cur)
+                near = set(l[max(0, i - 1): i + 2])
+                aimed = [o for o in cand if (o[0] == 4 and o[1] in near) or (o[0] in (2, 3) and o[1] in near)]
+                cand = aimed or cand
+            rem = [o for o in cand if o[0] == 4]
+            op = rng.choice(rem) if rem and rng.random() < 0.5 else rng.choice(cand)
+            if op[0] == 4:
+                gone.add(op[1])
+                i = l.index(op[1])
+                after[op[1]] = l[i + 1] if i + 1 < len(l) else None
+            l = ref_apply(l, op)
+            script.append(op)
+        return script, l
+
+    @staticmethod
+    def legal(l, op, gone=()):
+        """ValueError unless the structural operation is a legal call on the reference list l (only the shrinker produces others)"""
+        k, a, b = op
+        new = a if k <= 1 else (b if k <= 3 else None)
+        if new is not None and (new in l or new in gone):
+            raise ValueError("inserts a member, or an element removed during the open traversal")
+        if k in (2, 3, 4) and a not in l:
+            raise ValueError("names a non-member")
+        if k == 4 and len(l) < 2:
+            raise ValueError("removes the sole element")
+
+    def comparable(self, case):
+        # a traversal overlapping structural operations is outside the model's input language (its entry evaluates each query
+        # on one state of the container): such cases are judged by the oracle only
+        return not any(op[0] == 8 for op in case["ops"])
 
     @staticmethod
     def meets(elem, kw):
@@ -134,6 +245,24 @@ class CHECK(Check):
                     out.append(observe(c, ids, cap))
                 elif op[0] == 5:
                     out.append([ids.get(id(e), -9) for e in c.of_type(T[op[1]])])
+                elif op[0] == 8:
+                    g = c.of_type(T[op[1]])                 # the traversal is opened here ...
+                    end = object()
+                    steps, done = [], False
+                    for it in op[2]:
+                        if it == "next":
+                            if done:
+                                steps.append(-1)
+                                continue
+                            e = next(g, end)                # ... advanced one step at a time ...
+                            done = e is end
+                            steps.append(-1 if done else ids.get(id(e), -9))
+                        else:
+                            apply_op(c, elems, it)          # ... with structural operations in between ...
+                            steps.append(None)
+                    most = len(elems) + len(op[2]) + 3
+                    rest = [] if done else [ids.get(id(e), -9) for e in itertools.islice(g, most)]   # ... and exhausted
+                    out.append({"steps": steps, "rest": rest, "terminated": len(rest) < most, "state": observe(c, ids, cap)})
                 elif op[0] == 6:
                     kw = {KEYS[k]: fv(v) for k, v in op[2]}
                     r = getattr(c, F["get"])(T[op[1]], **kw)
@@ -209,9 +338,16 @@ class CHECK(Check):
                 return "operation %d raised or did not terminate" % op[0]
             o = obs[i]
             if op[0] <= 4:
+                if case["kind"].startswith("live"):
+                    self.legal(l, op)
                 l = ref_apply(l, op)
                 if o["fwd"] != l or o["first"] != l[0] or o["last"] != l[-1] or o["back"] != l[::-1]:
                     return "structural operation broke the container (C07)"
+                continue
+            if op[0] == 8:
+                why, l = self.judge_live(elems, l, op, o)
+                if why:
+                    return why
                 continue
             t, kw = op[1], op[2]
             oft = [x for x in l if isinst_row(elems[x][0])[t]]
@@ -241,6 +377,50 @@ class CHECK(Check):
                 l = after
         return None
 
+    def judge_live(self, elems, l, op, o):
+        """a traversal of of_type(T) that overlaps structural operations. The property does not say whether the traversal follows
+        the live container or a snapshot taken when it is opened (or first advanced), so only what EVERY such reading
+        guarantees is demanded. The window runs from the opening of the traversal to the step that reports its end."""
+        t, script = op[1], op[2]
+        if not isinstance(o, dict) or "steps" not in o or len(o["steps"]) != len(script):
+            return "the traversal raised or did not terminate", l
+        window = [list(l)]
+        handed = []
+        ended = False
+        gone = set()
+        for it, s in zip(script, o["steps"]):
+            if it == "next":
+                if ended:
+                    continue
+                if s == -1:
+                    ended = True
+                else:
+                    handed.append(s)
+            else:
+                self.legal(l, it, gone)
+                if it[0] == 4:
+                    gone.add(it[1])
+                l = ref_apply(l, it)
+                if not ended:
+                    window.append(list(l))
+        if not ended:
+            if not o["terminated"]:
+                return "of_type: the traversal does not terminate", l
+            handed = handed + o["rest"]
+        ist = lambda x: 0 <= x < len(elems) and isinst_row(elems[x][0])[t]
+        always = [x for x in window[0] if ist(x) and all(x in w for w in window)]
+        ever = set(x for w in window for x in w if ist(x))
+        if any(h not in ever for h in handed):
+            return "of_type (operations during the traversal): handed out something that was not a member of the requested type at any moment of the traversal", l
+        if any(handed.count(x) != 1 for x in always):
+            return "of_type (operations during the traversal): a member of the requested type throughout the traversal was not handed out exactly once", l
+        if [h for h in handed if h in always] != always:
+            return "of_type (operations during the traversal): not in container order", l
+        st = o["state"]
+        if st["fwd"] != l or st["first"] != l[0] or st["last"] != l[-1] or st["back"] != l[::-1] or st["len"] != len(l):
+            return "structural operation during a traversal broke the container (C07)", l
+        return None, l
+
     def nontrivial(self, case, obs):
         l = [0]
         elems = case["elems"]
@@ -248,6 +428,17 @@ class CHECK(Check):
         for op in case["ops"]:
             if op[0] <= 4:
                 l = ref_apply(l, op)
+                continue
+            if op[0] == 8:
+                # an operation after the first step, and a member of the type that stays from the opening to the end
+                sc = op[2]
+                stay = [x for x in l if isinst_row(elems[x][0])[op[1]]]
+                for j, it in enumerate(sc):
+                    if it != "next":
+                        l = ref_apply(l, it)
+                        stay = [x for x in stay if x in l]
+                        if "next" in sc[:j]:
+                            nt = nt or bool(stay)
                 continue
             m = [x for x in l if isinst_row(elems[x][0])[op[1]] and self.meets(elems[x], op[2])]
             if 0 < len(m) < len(l):
@@ -263,6 +454,10 @@ class CHECK(Check):
         d = {"kind_" + case["kind"]: 1, "fam_" + case["fam"]: 1, "members_%02d" % len(case["elems"]): 1}
         for op in case["ops"]:
             d["op_%d" % op[0]] = d.get("op_%d" % op[0], 0) + 1
+            if op[0] == 8:
+                for it in op[2]:
+                    k = "live_step" if it == "next" else ("live_remove" if it[0] == 4 else "live_insert")
+                    d[k] = d.get(k, 0) + 1
         return d
 
     def signature(self, case, why):
@@ -270,6 +465,20 @@ class CHECK(Check):
 
     def shrink(self, case):
         ops = case["ops"]
+        if case["kind"].startswith("live"):
+            # (illegal histories that arise are recognised by the oracle and not judged)
+            for i in range(len(ops)):
+                if any(o[0] == 8 for o in ops[:i] + ops[i + 1:]):
+                    c = dict(case)
+                    c["ops"] = ops[:i] + ops[i + 1:]
+                    yield c
+            for i, op in enumerate(ops):
+                if op[0] == 8:
+                    for j in range(len(op[2])):
+                        c = dict(case)
+                        c["ops"] = ops[:i] + [[8, op[1], op[2][:j] + op[2][j + 1:]]] + ops[i + 1:]
+                        yield c
+            return
         for i in range(len(ops) - 1):
             if ops[i][0] >= 5:
                 c = dict(case)
